@@ -368,9 +368,22 @@ def general_program(draw, cfg, max_steps=30, extra=(), disable=()):
             break
         room = b.room()
         choice = d(st.sampled_from(['label', 'label', 'instr', 'instr', 'instr', 'probe', 'probe', 'fill', 'zerountil',
-                                    'org', 'align', 'memzone', 'orgzone', 'mute', 'excluded', 'const', 'local', 'flabel']
+                                    'org', 'align', 'memzone', 'orgzone', 'mute', 'excluded', 'const', 'local', 'flabel',
+                                    'string']
                                    + list(extra)))
         if choice in disable:
+            continue
+        if choice == 'string' and room >= 24:
+            # quoted text built from words that also occur as syntax elsewhere: label names with their colon,
+            # mnemonics, a semicolon, the other quote character
+            words = [n + ':' for n in b.planned] + ['nop', 'ldi 5', '; not a comment', "it's", 'a,b', '  ', '#if', '.org', 'x=1']
+            text = ' '.join(d(st.lists(st.sampled_from(words), min_size=1, max_size=3)))[:20]
+            q = d(st.sampled_from(['"', '"', "'"]))
+            chars = [ord(c) for c in text if c != '\\']
+            if d(st.integers(0, 3)) == 0:
+                chars.append(['esc', 10, '\\n'])
+            b.add({'t': 'str', 'd': d(st.sampled_from(['.byte', '.cstr', '.asciiz'])), 'chars': chars, 'q': q})
+            feats.add('string')
             continue
         if choice == 'createzone':
             free = [z for z in isagen.ZONES + ['ZX', 'ZY'] if z not in b.lay.zones]
